@@ -16,6 +16,11 @@
                                      value in [wlo, whi] x lens x ids
      stw <cfg> <hist> <ver> <tlo> <thi> <len,..> <id,..>   the same client: client_write_header for
                                      Header{ver, typ, payloadLen, id}, typ in [tlo, thi] x lens x ids (hex)
+     snd <cfg> <hist> <api> <plen> <types>   client_send_all on that client for every type (ranges a-b, comma
+                                     separated) with plen zero payload bytes: "R" refused, else the bytes sent (hex)
+     wfl <cfg> <hist> <via> <k> <kind> <then> <v:t:l:i;..>   the connection's next Write takes k bytes and fails
+                                     (kind t|n = a deadline error; k "-" = no fault): via d client_write_header_io,
+                                     via q client_send_io; "<ok|E>:<bytes received>", "R" refused
    ("!nh" after a stl token: client_offers is false - the message is not handed to a handler)
    decoded headers print as ver.typ.len.id, rejection/refusal as E, bytes as hex *)
 open Model
@@ -26,6 +31,7 @@ let n_of_int (n:int) : n = if n = 0 then N0 else Npos (pos_of_int n)
 let rec int_of_pos = function XH -> 1 | XO p -> 2 * int_of_pos p | XI p -> 2 * int_of_pos p + 1
 let int_of_n = function N0 -> 0 | Npos p -> int_of_pos p
 
+let rec nat_of_int n = if n <= 0 then O else S (nat_of_int (n - 1))
 let byte_n = Array.init 256 n_of_int
 let csv s = List.map int_of_string (String.split_on_char ',' s)
 let b32 x = [ byte_n.((x lsr 24) land 255); byte_n.((x lsr 16) land 255); byte_n.((x lsr 8) land 255); byte_n.(x land 255) ]
@@ -191,6 +197,30 @@ let () =
                    let h = { h_ver = ver; h_typ = n_of_int typ; h_len = n_of_int l; h_id = n_of_int id } in
                    Buffer.add_string out (hex_of (client_write_header st h))) ids) lens
          done
+       | ["snd"; cfg; hist; _; plen; types] ->
+         let st = client_run (parse_cfg cfg) (parse_hist hist) in
+         let plen = int_of_string plen in
+         let ts = List.concat_map (fun part ->
+             match String.split_on_char '-' part with
+             | [a; b] -> let a = int_of_string a and b = int_of_string b in List.init (b - a + 1) (fun i -> a + i)
+             | [a] -> [int_of_string a]
+             | _ -> failwith "bad types") (String.split_on_char ',' types) in
+         let pl = String.concat "" (List.init plen (fun _ -> "00")) in
+         let rs = client_send_all st (List.map (fun t -> (n_of_int t, n_of_int plen)) ts) in
+         Buffer.add_string out (String.concat " " (List.map (function
+             | None -> "R" | Some hb -> hex_of hb ^ pl) rs))
+       | ["wfl"; cfg; hist; via; k; kind; _; items] ->
+         let st = client_run (parse_cfg cfg) (parse_hist hist) in
+         let f = if k = "-" then WNoFault else WFault (nat_of_int (int_of_string k), (kind = "t" || kind = "n")) in
+         let show (got, ok) = (if ok then "ok:" else "E:") ^ hex_of got in
+         Buffer.add_string out (String.concat " " (List.map (fun it ->
+             match List.map int_of_string (String.split_on_char ':' it) with
+             | [v; t; l; i] ->
+               if via = "d" then
+                 show (client_write_header_io st { h_ver = n_of_int v; h_typ = n_of_int t; h_len = n_of_int l; h_id = n_of_int i } f)
+               else (match client_send_io st (n_of_int t) (n_of_int l) f with
+                   | None -> "R" | Some r -> show r)
+             | _ -> failwith "bad item") (String.split_on_char ';' items)))
        | ["raw"; h] ->
          decode_both out (if h = "-" then [] else bytes_of_hex h)
        | ["enc"; ver; typ; lens; ids] ->
